@@ -76,14 +76,17 @@ func setupWorker(mon *Monitor) {
 		mb = 256
 	}
 	debug.SetMaxStack(mb << 20)
-	// heap watchdog: exit with a distinguished code above 6 GiB live heap
+	// heap watchdog: exit with a distinguished code above 2 GiB live heap (16 workers of one check must stay well inside the
+	// machine's memory, or the kernel picks the victims); the goroutine dump names where the memory was being allocated
 	go func() {
 		var ms runtime.MemStats
 		for {
-			time.Sleep(500 * time.Millisecond)
+			time.Sleep(200 * time.Millisecond)
 			runtime.ReadMemStats(&ms)
-			if ms.HeapAlloc > 6<<30 {
+			if ms.HeapAlloc > 2<<30 {
 				fmt.Fprintf(os.Stderr, "VERIF-HEAP-WATCHDOG heap=%d\n", ms.HeapAlloc)
+				buf := make([]byte, 1<<20)
+				os.Stderr.Write(buf[:runtime.Stack(buf, true)]) //nolint
 				os.Exit(3)
 			}
 		}
@@ -133,6 +136,16 @@ func WorkerMain(args []string) int {
 			fmt.Fprintln(os.Stderr, err)
 			return 2
 		}
+	}
+	if mon.CaseStallS >= 0 {
+		limit := time.Duration(mon.CaseStallS) * time.Second
+		if limit == 0 {
+			limit = 30 * time.Second
+			if args[1] != "quick" {
+				limit = 150 * time.Second
+			}
+		}
+		x.StartStallWatchdog(limit, strings.TrimSuffix(args[5], ".json")+".stall.json")
 	}
 	mon.Run(x)
 	if err := writeResult(args[5], x.Res); err != nil {
@@ -280,7 +293,7 @@ func fatalClass(logPath string, oc childOutcome) string {
 	case strings.Contains(all, "concurrent map"):
 		return "fatal:concurrent-map:" + innermostLibFrame(all)
 	case strings.Contains(all, "VERIF-HEAP-WATCHDOG") || strings.Contains(all, "out of memory"):
-		return "fatal:memory"
+		return "fatal:memory:" + innermostLibFrame(all)
 	case strings.Contains(all, "checkptr"):
 		return "fatal:checkptr:" + innermostLibFrame(all)
 	case strings.Contains(all, "fatal error:"):
@@ -302,10 +315,11 @@ func innermostLibFrame(dump string) string {
 	for sc.Scan() {
 		l := sc.Text()
 		if strings.HasPrefix(l, libPath) && !strings.Contains(l, "/verifhook.") {
-			if i := strings.IndexByte(l, '('); i > 0 {
+			if i := strings.LastIndexByte(l, '('); i > 0 {
 				l = l[:i]
 			}
-			return l[strings.LastIndex(l, "/")+1:]
+			l = l[strings.LastIndex(l, "/")+1:]
+			return strings.NewReplacer("(*", "", ")", "").Replace(l)
 		}
 	}
 	return "unknown"
@@ -344,27 +358,55 @@ func (d *driver) runShard(shard, n int) {
 	base := filepath.Join(d.tmp, fmt.Sprintf("shard%03d", shard))
 	args := []string{"worker", d.mon.ID, d.tier, fmt.Sprint(d.seed), fmt.Sprint(shard), fmt.Sprint(n), base + ".json"}
 	env := d.childEnv(base)
+	os.Remove(base + ".stall.json")
 	oc := d.runChild(args, env, base+".log", base+".json", d.shardTimeout())
 	if oc.ok {
 		d.merge(oc.res)
 		return
 	}
-	class := fatalClass(base+".log", oc)
-	os.Rename(base+".log", base+".crash1.log") //nolint
-	// second run with the journal on, to name the culprit
+	var oc2 childOutcome
+	var class, class2 string
+	var culprit *Case
 	jpath := base + ".journal"
-	oc2 := d.runChild(args, append(env, "VERIF_JOURNAL="+jpath), base+".log", base+".json", d.shardTimeout())
-	if oc2.ok {
-		d.mu.Lock()
-		d.merged.Inconclusive++
-		d.merged.Counts["inconclusive:worker-crash-not-reproduced("+class+")"]++
-		d.notes = append(d.notes, fmt.Sprintf("shard %d: %s on first run, clean on second", shard, class))
-		d.mu.Unlock()
-		d.merge(oc2.res)
-		return
+	if sb, err := os.ReadFile(base + ".stall.json"); err == nil {
+		// the worker's own watchdog saw one case running far beyond the length of a whole shard and named it:
+		// confirm on that case alone, as for a shard deadline
+		var c Case
+		if json.Unmarshal(sb, &c) == nil {
+			culprit = &c
+		}
+		oc.timedOut = true
+		oc2 = oc
+		class = fatalClass(base+".log", oc)
+		class2 = class
 	}
-	class2 := fatalClass(base+".log", oc2)
-	culprit := lastJournalCase(jpath)
+	if culprit == nil {
+		class = fatalClass(base+".log", oc)
+		os.Rename(base+".log", base+".crash1.log") //nolint
+		// second run with the journal on, to name the culprit
+		oc2 = d.runChild(args, append(env, "VERIF_JOURNAL="+jpath), base+".log", base+".json", d.shardTimeout())
+		if oc2.ok {
+			d.mu.Lock()
+			d.merged.Inconclusive++
+			d.merged.Counts["inconclusive:worker-crash-not-reproduced("+class+")"]++
+			d.notes = append(d.notes, fmt.Sprintf("shard %d: %s on first run, clean on second", shard, class))
+			d.mu.Unlock()
+			d.merge(oc2.res)
+			return
+		}
+		class2 = fatalClass(base+".log", oc2)
+		if sb, err := os.ReadFile(base + ".stall.json"); err == nil {
+			var c Case
+			if json.Unmarshal(sb, &c) == nil {
+				culprit = &c
+				oc2.timedOut = true
+				class2 = fatalClass(base+".log", oc2)
+			}
+		}
+	}
+	if culprit == nil {
+		culprit = lastJournalCase(jpath)
+	}
 	if culprit == nil {
 		d.mu.Lock()
 		d.merged.HarnessBugs = append(d.merged.HarnessBugs, fmt.Sprintf("shard %d crashed twice (%s / %s) with no journal entry:\n%s", shard, class, class2, clip(oc2.logTail, 3000)))
@@ -379,7 +421,7 @@ func (d *driver) runShard(shard, n int) {
 	if oc2.timedOut {
 		hangs := 0
 		for i := 0; i < 3; i++ {
-			o := d.runChild(rargs, env, base+".replay.log", base+".replay.json", 60*time.Second)
+			o := d.runChild(rargs, env, base+".replay.log", base+".replay.json", 45*time.Second)
 			if o.timedOut {
 				hangs++
 			}
